@@ -1,6 +1,7 @@
 package rules
 
 import (
+	"go/token"
 	"sort"
 	"strings"
 
@@ -13,7 +14,7 @@ import (
 func init() {
 	register(&Prop{
 		ID:          "C14",
-		Explanation: "Decides that identity-provider failures cannot yield a session by code shape: every saving path of the callback has redeemCode's error nil, the saved session is redeemCode's and enrichSessionState(session) returned nil; redeemCode returns a session only when provider.Redeem's error was nil; after a stale session's refresh attempt the result is validateSession's verdict (not-expired and provider validation), shared with C12.R4; at every call site of a Provider method (Redeem, EnrichSession, RefreshSession, ValidateSession, Authorize, CreateSessionFromToken, GetEmailAddress) the error result is returned/converted to a non-nil error or examined by a branch, and the boolean/session result is used; OIDC createSession tolerates a failed ID-token verification only for refresh with ErrMissingIDToken; and in all provider, claim-extraction and request packages reachable from ServeHTTP every unchecked type assertion, explicit panic, compiler-unproven index/slice and decoder-filled pointer used without a nil test is guarded or reviewed (the panic-source enumeration of C19 restricted to code that handles identity-provider data).",
+		Explanation: "Decides that identity-provider failures cannot yield a session by code shape: every saving path of the callback has redeemCode's error nil, the saved session is redeemCode's and enrichSessionState(session) returned nil; redeemCode returns a session only when provider.Redeem's error was nil; after a stale session's refresh attempt the result is validateSession's verdict (not-expired and provider validation), shared with C12.R4; at every call site of a Provider method (Redeem, EnrichSession, RefreshSession, ValidateSession, Authorize, CreateSessionFromToken, GetEmailAddress) the error result is returned/converted to a non-nil error or examined by a branch, and the boolean/session result is used; OIDC createSession tolerates a failed ID-token verification only for refresh with ErrMissingIDToken; and in all provider, claim-extraction and request packages reachable from ServeHTTP every unchecked type assertion, explicit panic, compiler-unproven index/slice and decoder-filled pointer used without a nil test is guarded or reviewed (the panic-source enumeration of C19 restricted to code that handles identity-provider data). Added during the build: createSession failure clauses (R5); provider code never finds a module callee's error non-nil and then returns success, reviewed fallbacks listed (R6); validateToken answers true only for a non-empty token, an error-free request and status 200 (R7); result-before-error-check dereferences in provider code (under R4).",
 		NotDecided:  "time-outs, oversized bodies and other resource behaviour; panics inside third-party decoders (go-oidc, jose, simplejson) on hostile bytes.",
 		Run:         runC14,
 	})
@@ -24,6 +25,8 @@ func runC14(c *Ctx) {
 	r.Rule("R1-callback", "save only with redeemCode err==nil and enrichSessionState==nil; redeemCode non-nil => Redeem err==nil", 2)
 	r.Rule("R2-refresh-error", "a failed refresh keeps the session only by validateSession's verdict (C12.R4)", 4)
 	r.Rule("R3-provider-results", "no Provider method result is dropped: errors propagated or examined, verdicts used", 8)
+	r.Rule("R6-tested-then-dropped", "provider code never finds a module callee's error non-nil and then returns a nil error (shadowed or overwritten error variables, break-and-forget)", 50)
+	r.Rule("R7-validate-token", "validateToken true => token non-empty, request error-free, status 200", 1)
 	r.Rule("R4-panic-sources", "no unguarded panic source on decoded identity-provider data in request-reachable provider code", 8)
 	r.Rule("R5-verification-failures", "createSession tolerates a verification failure only for refresh && ErrMissingIDToken", 2)
 
@@ -144,6 +147,20 @@ func runC14(c *Ctx) {
 		}
 	}
 
+	// ---- R6 ---------------------------------------------------------------------------------
+	{
+		var pf []*ssa.Function
+		for _, fn := range c.P.ModFns {
+			pk := prog.Short(prog.FnPkg(fn).Path())
+			if pk == "providers" || strings.HasPrefix(pk, "pkg/providers/") || pk == "pkg/requests" {
+				pf = append(pf, fn)
+			}
+		}
+		c.checkModuleErrorDiscipline("R6-tested-then-dropped", pf, reviewedProviderErrDrops)
+	}
+
+	runC14R7(c, "R7-validate-token")
+
 	// ---- R4 ---------------------------------------------------------------------------------
 	rule = "R4-panic-sources"
 	R := c.requestReachable(rule)
@@ -174,6 +191,7 @@ func runC14(c *Ctx) {
 		c.R.Notes = append(c.R.Notes, sprintf("request-reachable functions handling identity-provider data: %d", len(fns)))
 		c.dischargeSites(rule, sites, reviewedPanics, c.panicAuto(rule))
 		c.checkDecodedPointers(rule, fns)
+		c.checkErrResults(rule, fns)
 		// claim coercion helpers use checked conversions: no single-value assertion anywhere in pkg/providers/util
 		n := 0
 		for _, fn := range c.P.ModFns {
@@ -256,6 +274,69 @@ func runC14R5(c *Ctx, rule string) {
 			c.ok(rule, key+"|refresh-without-id-token", p.Exit, "refresh response without id_token")
 		} else {
 			c.bad(rule, key, p.Exit, "a token response whose ID token failed verification still produces/extends a session (tolerated only for refresh && ErrMissingIDToken)", p, at)
+		}
+	})
+}
+
+// reviewedProviderErrDrops: callee|function -> reason.
+var reviewedProviderErrDrops = map[string]string{
+	"(*providers.AzureProvider).extractClaimsIntoSession|(*providers.AzureProvider).EnrichSession":          "claims failure is logged; the e-mail is then fetched from the profile API and an empty e-mail is an error",
+	"(*providers.ProviderData).buildSessionFromClaims|(*providers.AzureProvider).extractClaimsIntoSession":  "first attempt (ID token) falls back to the access token; the second call's error decides",
+	"(*providers.AzureProvider).extractClaimsIntoSession|(*providers.AzureProvider).redeemRefreshToken":     "the refresh itself succeeded and the tokens are already stored; a claims failure is logged and leaves e-mail/groups as they were",
+	"pkg/providers/oidc.IDTokenVerifier.Verify|(*providers.AzureProvider).verifySessionToken":               "a failed ID-token verification falls back to verifying the access token; the second Verify's error is returned",
+	"pkg/requests.Result.UnmarshalSimpleJSON|(*providers.MicrosoftEntraIDProvider).addGraphGroupsToSession": "documented best-effort group-overage lookup: on failure no groups are added (fails closed for group authorisation) and the error is logged",
+	"pkg/requests.Result.UnmarshalInto|(*providers.ProviderData).Redeem":                                    "a body that is not JSON is then parsed as x-www-form-urlencoded; without an access_token there the redeem fails",
+	"(*providers.ProviderData).verifyIDToken|(*providers.OIDCProvider).createSession":                       "ErrMissingIDToken during a refresh only (structure checked by C04.R3-same-token)",
+}
+
+// runC14R7: validateToken answers true only for a non-empty token, a configured validate URL, a
+// request that did not fail and a 200 status.
+func runC14R7(c *Ctx, rule string) {
+	vt := c.Fn(rule, "providers.validateToken")
+	resErr := c.Method(rule, "pkg/requests.Result.Error")
+	resStatus := c.Method(rule, "pkg/requests.Result.StatusCode")
+	if vt == nil || resErr == nil || resStatus == nil {
+		return
+	}
+	c.Walk(rule, vt, func(p *walk.Path) {
+		rv, ok := p.ReturnDV(0)
+		if !ok {
+			return
+		}
+		if b, k := p.Truth(rv, p.End()); k && !b {
+			return
+		}
+		at := p.End()
+		key := "true-return|" + fnKey(vt)
+		isTok := func(x walk.DV) bool { return p.Resolve(x).V == vt.Params[2] }
+		var missing []string
+		if !eqConstAtom(p, at, false, "", isTok) {
+			missing = append(missing, "accessToken != \"\"")
+		}
+		if _, ok := Has(p, at, Need{M: walk.Invoke(c.P, resErr), Idx: -1, Out: ErrNil}); !ok {
+			missing = append(missing, "result.Error() == nil")
+		}
+		st := false
+		for _, a := range p.Atoms(at) {
+			b, ok := a.DV.V.(*ssa.BinOp)
+			if !ok || a.IsNil || !a.Val || (b.Op != token.EQL && b.Op != token.NEQ) {
+				continue
+			}
+			for _, pair := range [][2]ssa.Value{{b.X, b.Y}, {b.Y, b.X}} {
+				if n, ok := ConstInt(pair[1]); ok && n == 200 {
+					if call, ok := p.Resolve(p.Op(pair[0], a.DV)).V.(*ssa.Call); ok && call.Call.IsInvoke() && call.Call.Method == resStatus {
+						st = true
+					}
+				}
+			}
+		}
+		if !st {
+			missing = append(missing, "result.StatusCode() == 200")
+		}
+		if len(missing) == 0 {
+			c.ok(rule, key, p.Exit, "true only with a non-empty token, an error-free request and status 200")
+		} else {
+			c.bad(rule, key, p.Exit, "validateToken can answer true without "+strings.Join(missing, ", ")+": an empty or unverified token validates a session", p, at)
 		}
 	})
 }
